@@ -10,6 +10,8 @@ ExpTbs(pre, j, ext) == SigStructure(LayerProtItem(pre), LayerProtItem(pre.sigs[j
 SlotAlgAgrees(pre, j, alg, ext) ==
   LET h == AlgOfBucket(pre.sigs[j].P) IN IF h.kind = "absent" THEN ext # <<>> ELSE AlgEq(h, alg)
 
+\* The property fixes WHICH verifier judges WHICH signature over WHICH bytes and the overall verdict; it does not fix the
+\* order of the calls nor whether verification stops at the first failure.
 VerifyFails(e) ==
   LET k == Len(e.obs)
       v == e.obs[k]
@@ -17,20 +19,19 @@ VerifyFails(e) ==
       vs == e.steps[k].verifiers
       m == Len(pre.sigs)
       vc == CallsNamed(v.calls, "Verify")
-      c == Len(vc)
-      disciplined == /\ c <= m /\ c <= Len(vs)
-                     /\ \A j \in 1..c : vc[j].who = vs[j].name /\ vc[j].content = ExpTbs(pre, j, e.ext) /\ vc[j].sig = pre.sigs[j].sig
-      allok == \A j \in 1..c : vc[j].reterr = "ok"
+      \* positions a recorded call may belong to: the verifier of that position, that signer's own Sig_structure, that slot's bytes
+      PosOf(c) == { j \in 1..m : j <= Len(vs) /\ c.who = vs[j].name /\ c.content = ExpTbs(pre, j, e.ext) /\ c.sig = pre.sigs[j].sig }
+      positional == \A i \in 1..Len(vc) : PosOf(vc[i]) # {}
+      Verified(j) == \E i \in 1..Len(vc) : j \in PosOf(vc[i]) /\ vc[i].reterr = "ok"
+      Failed(j) == \E i \in 1..Len(vc) : j \in PosOf(vc[i]) /\ vc[i].reterr # "ok"
   IN
   (IF v.res = "panic" THEN {"panic"} ELSE {})
   \* NoEmpty: whatever was done to the slots, a message with an empty signature cannot be serialised
   \cup (IF e.obs[k - 2].op = "marshal" /\ e.obs[k - 2].res = "ok" /\ \E j \in 1..m : pre.sigs[j].sig = <<>> THEN {"message-with-an-empty-signature-serialised"} ELSE {})
-  \cup (IF ~disciplined THEN {"verifier-calls-not-positional-over-own-sig-structure"} ELSE {})
-  \cup (IF \E j \in 1..(c - 1) : vc[j].reterr # "ok" THEN {"continues-after-a-failed-signature"} ELSE {})
-  \cup (IF disciplined /\ \E j \in 1..c : ~SlotAlgAgrees(pre, j, vs[j].alg, e.ext) THEN {"verifier-called-under-another-algorithm"} ELSE {})
-  \cup (IF v.res = "ok" /\ ~(Len(vs) = m /\ m > 0 /\ c = m /\ allok) THEN {"accepts-without-every-signature-verified-in-position"} ELSE {})
-  \cup (IF v.res # "ok" /\ disciplined /\ Len(vs) = m /\ m > 0 /\ allok /\
-           (c = m \/ (pre.sigs[c + 1].sig # <<>> /\ SlotAlgAgrees(pre, c + 1, vs[c + 1].alg, e.ext)))
+  \cup (IF ~positional THEN {"verifier-calls-not-positional-over-own-sig-structure"} ELSE {})
+  \cup (IF positional /\ \E i \in 1..Len(vc) : \E j \in PosOf(vc[i]) : ~SlotAlgAgrees(pre, j, vs[j].alg, e.ext) THEN {"verifier-called-under-another-algorithm"} ELSE {})
+  \cup (IF v.res = "ok" /\ ~(Len(vs) = m /\ m > 0 /\ \A j \in 1..m : Verified(j) /\ ~Failed(j)) THEN {"accepts-without-every-signature-verified-in-position"} ELSE {})
+  \cup (IF v.res # "ok" /\ positional /\ Len(vs) = m /\ m > 0 /\ (\A j \in 1..m : Verified(j) /\ ~Failed(j))
         THEN {"rejects-although-every-signature-verifies-in-position"} ELSE {})
 
 SignFails(e) ==
@@ -39,7 +40,7 @@ SignFails(e) ==
       n == e.n
       sc == CallsNamed(s.calls, "Sign")
   IN
-  IF n = 0 THEN (IF s.res # "ErrNoSignatures" THEN {"signing-without-signature-slots-not-refused"} ELSE {})
+  IF n = 0 THEN (IF s.res = "ok" THEN {"signing-without-signature-slots-not-refused"} ELSE {})
                 \cup (IF mm.res = "ok" THEN {"message-without-signatures-serialised"} ELSE {})
   ELSE (IF s.res = "ok" /\ (Len(sc) # n \/ \E j \in 1..n : s.post.sigs[j].sig = <<>>) THEN {"sign-ok-but-a-slot-is-empty"} ELSE {})
        \cup (IF s.res = "ok" /\ Len(sc) = n /\ \E j \in 1..n : sc[j].content # ExpTbs(s.post, j, e.ext) \/ sc[j].ret # s.post.sigs[j].sig
